@@ -140,6 +140,10 @@ func (eng *Engine) Verify(fn *ssa.Function, spec *FuncSpec, tags map[string]bool
 					eng.assumes["fresh() postcondition of "+res.Func+" is assumed, not verified"] = true
 					continue
 				}
+				if c.Assumed {
+					eng.assumes["assumed (not verified) postcondition of "+res.Func+": "+c.Text] = true
+					continue
+				}
 				if !e.wantClause(c) {
 					continue
 				}
